@@ -222,6 +222,42 @@ def rule_PF(facts):
             out.append(Inst('R-PF', key, 'violation', f['span'], 'prefetch position must only feed arithmetic and prefetch calls; found: %s' % '; '.join(sorted(set(bad))), props))
         else:
             out.append(Inst('R-PF', key, 'ok', f['span'], 'position flows only into arithmetic and prefetch calls', props))
+    # (e) sampled bit vectors: the writer closes chunk j when it reaches index j * rate (so after scanning position i
+    #     there are (i / rate) + 1 bits), and the reader asks rank1((i >> shift) + 1) and unwraps it
+    from .r_layout import _affine
+    pw = (FA.by_base_name.get(('quadwt::prefetch_support::PrefetchSupport', 'new'), []) or [None])[0]
+    pr = (FA.by_base_name.get(('quadwt::prefetch_support::PrefetchSupport', 'approx_rank_unchecked'), []) or [None])[0]
+    key = 'R-PF|e|PrefetchSupport sample count'
+    if pw is None or pr is None:
+        out.append(Inst('R-PF', key, 'violation', '', 'PrefetchSupport::new / approx_rank_unchecked not found (anchor lost)', props))
+    else:
+        W = FA.fn(pw)
+        woff = []
+        for b in W.blocks:
+            for s in b['s']:
+                rv = s.get('rv')
+                if rv and rv['k'] == 'bin' and rv['op'] == 'Rem':
+                    x = norm(W.operand_term(rv['a']))
+                    base, c = _affine(x)
+                    if any(isinstance(z, tuple) and z and z[0] == 'call' and z[1].split('::')[-1] == 'enumerate' for z in subterms(base)):
+                        woff.append((c, s['line']))
+        R2 = FA.fn(pr)
+        rplus = []
+        for bi, t in R2.calls():
+            if t['f']['fn']['name'] == 'rank1' and len(t['args']) == 2:
+                a = norm(R2.operand_term(t['args'][1]))
+                base, c = _affine(a)
+                if base[0] == 'bin' and base[1] in ('Shr', 'Div'):
+                    rplus.append((c, t['line']))
+        if not woff or not rplus:
+            out.append(Inst('R-PF', key, 'violation', pw['span'], 'chunk-closing test `index %% rate` or reader `rank1((i >> shift) + c)` not found (anchor lost)', props))
+        elif all(c == 0 for c, _ in woff) and all(c == 1 for c, _ in rplus):
+            out.append(Inst('R-PF', key, 'ok', woff[0][1], 'writer closes a chunk at index %% rate == 0 (0-based); reader ranks (i >> shift) + 1 sample bits', props,
+                            sample={'writer_offset': [c for c, _ in woff], 'reader_plus': [c for c, _ in rplus]}))
+        else:
+            out.append(Inst('R-PF', key, 'violation', woff[0][1],
+                            'writer closes chunks at (index %+d) %% rate == 0 and the reader ranks (i >> shift) %+d bits and unwraps: the sample vector can be one bit short (panic on a position at a chunk boundary)' % (
+                                woff[0][0], rplus[0][0]), props, sample={'writer_offset': [c for c, _ in woff], 'reader_plus': [c for c, _ in rplus]}))
     # (d) feature independence: default vs nofeat differ only in prefetch_read_NTA
     NF = facts.get('nofeat')
     if NF is not None:
